@@ -5,7 +5,10 @@ request: walk <cfg> <paths> <skip> <regex> <glob> <req> <ext> <nroots> { <tree> 
   path   "." or hex segments joined by "/";  lists joined by ";" ("-" = empty)
   regex/glob  none | set:<paths;>            (the directory paths the real engine matched)
   req    e@path;…        ext  e@path=<err><panic>:<ids,>;…
-  tree   preorder nodes path:kind:size:gi ;  kind d|r|l|s ;  gi  n | g<pat,…> ;  pat <dirOnly><neg><hexname>
+  tree   preorder nodes path:kind:size:gi ;  kind d|r|l|s ;  gi  n | g<pat,…> ;  pat <dirOnly><neg><hexname> | 20<hex of a raw line>
+         a .gitignore with a raw line (full gitignore syntax) is NOT interpreted by the model: the optional last token
+         gt=<hex(key)~path~d|f,…> lists what the real go-git matcher excludes (key = "<dir path>#<gi field>"); the model's
+         matcher for that directory is this table (the theorems only need the domain law, which the table matcher has by construction)
   faults of=<paths,>|sf=<paths,>|ff=<paths,>|rf=<path#k,>
 reply : err= vis= calls=<e@path@size;…> pkgs=<id@e@path;…> st=<e=status,…> hyp=<0|1> spec=<calls owed, walk order>
         … limithyp=<0|1> specvisits=<visitsScan: handleFile calls of the scan run to the end> (theorem C10_inodes_exact)
@@ -40,6 +43,8 @@ def parsePat (s : String) : Option Pat :=
     | none => none
   | _ => none
 
+def rawPrefix : String := "\x00raw:"
+
 def parseRaw (s : String) : Option RawNode :=
   match s.splitOn ":" with
   | [p, k, sz, g] =>
@@ -47,7 +52,12 @@ def parseRaw (s : String) : Option RawNode :=
     | some p, some sz =>
       if g = "n" then some ⟨p, k, sz, none⟩
       else if g.startsWith "g" then
-        match (listOf (g.drop 1).toString ",").mapM parsePat with
+        let pats := listOf (g.drop 1).toString ","
+        if pats.any (·.startsWith "2") then
+          -- full-syntax .gitignore: an opaque pattern set identified by directory and content
+          some ⟨p, k, sz, some [⟨rawPrefix ++ showPath p ++ "#" ++ g, false, false⟩]⟩
+        else
+        match pats.mapM parsePat with
         | some ps => some ⟨p, k, sz, some ps⟩
         | none => none
       else none
@@ -129,6 +139,24 @@ def parseRoots : Nat → List String → Option (List (Node × Faults))
     | _, _, _ => none
   | _, _ => none
 
+/-- the table of the real matcher's verdicts: (key, path, isDir) triples that are excluded -/
+def parseGiTable (s : String) : Option (List (String × Path × Bool)) :=
+  (listOf s ",").mapM fun e =>
+    match e.splitOn "~" with
+    | [k, p, d] => match strOfHex k, parsePath p with
+      | some k, some p => some (k, p, d = "d")
+      | _, _ => none
+    | _ => none
+
+/-- go-git's matcher: the sub-language model for interpreted pattern sets, the table for opaque ones
+(`Model/Gitignore.lean: tableMatch`, which obeys the domain law whatever the table says: `tableMatch_domain`) -/
+def rawKey (ps : PatSet) : Option String :=
+  match ps with
+  | [pt] => if pt.name.startsWith rawPrefix then some (pt.name.drop rawPrefix.length).toString else none
+  | _ => none
+def giMatchOf (tbl : List (String × Path × Bool)) : PatSet → List String → List String → Bool → Bool :=
+  tableMatch rawKey tbl
+
 def bytes (s : String) : List Nat := s.toUTF8.toList.map (·.toNat)
 def bytesLt (a b : String) : Bool := ltBytes (bytes a) (bytes b)
 
@@ -165,7 +193,11 @@ def handle (line : String) : String :=
     match parsePaths paths ";", parsePaths skip ";", parseSet rx, parseSet gl,
           (listOf req ";").mapM parseEP, (listOf ext ";").mapM parseExt, nr.toNat? with
     | some paths, some skip, some rx, some gl, some req, some ext, some nr =>
-      match parseRoots nr rest with
+      let (rootToks, extra) := (rest.take (2 * nr), rest.drop (2 * nr))
+      let tbl : List (String × Path × Bool) := match extra with
+        | [g] => if g.startsWith "gt=" then (parseGiTable (g.drop 3).toString).getD [] else []
+        | _ => []
+      match parseRoots nr rootToks with
       | some roots =>
         let c : Cfg := {
           nExt := getKV kv "next"
@@ -183,7 +215,7 @@ def handle (line : String) : String :=
           errorOnFSErrors := getKV kv "eofs" = 1
           cancelBefore := getKV kv "cb" = 1
           cancelAt := if getKV kv "ca" = 0 then none else some (getKV kv "ca")
-          giMatch := matcherMatch }
+          giMatch := giMatchOf tbl }
         let r := run c roots
         let o := scan naming c roots
         let hyp := c.maxInodes = 0 && !c.errorOnFSErrors && !c.cancelBefore && c.cancelAt.isNone &&
